@@ -93,3 +93,13 @@ Theorem C03_RandomSizedCrop_keypoint : forall sd sh sw x y z a sc hs ws ch cw cd
     sc' == sc * Qmax (Qmax (inject_Z sw / inject_Z cw) (inject_Z sh / inject_Z ch)) (inject_Z sd / inject_Z cd).
 Proof. exact RandomSizedCrop_keypoint. Qed.
 Print Assumptions C03_RandomSizedCrop_keypoint.
+
+(* every named parameter of a target path (apply, apply_to_mask, apply_to_bbox, apply_to_keypoint, ...) of every
+   transform class is one the class's parameter methods put into the shared parameter dictionary, so no keypoint path can
+   silently fall back to a default plane / offset / factor while the image follows the drawn one; the one formal
+   that is never supplied, RandomSizedCrop's d_start, is unsupplied for every target alike (regenerated table) *)
+From DV.gen Require Import Gen_classtab.
+From DV.proofs Require Import ClassFacts CF_C01.
+Theorem C03_every_parameter_a_target_path_names_is_supplied : forallb param_row_ok param_table = true.
+Proof. exact target_path_parameters_are_supplied. Qed.
+Print Assumptions C03_every_parameter_a_target_path_names_is_supplied.
